@@ -613,5 +613,10 @@ func (sm *SeatManager) Next() error {
 		return ErrInsufficientNumberOfPlayers
 	}
 
+	// Even after waiting players have been let in, fewer than two players can play
+	if sm.getPlayableSeatCount() < 2 {
+		return ErrInsufficientNumberOfPlayers
+	}
+
 	return sm.renewSeatStatus()
 }
